@@ -164,9 +164,10 @@ fn run_guarded<P: Property>(p: &P, case: &P::Case) -> Report {
                 }
             }
             println!(
-                "HARNESS-ERROR property={} panic outside the code under test: {}\ncase: {}",
+                "HARNESS-ERROR property={} panic outside the code under test: {} (at {})\ncase: {}",
                 p.id(),
                 msg,
+                crate::sim::last_panic_location().unwrap_or_default(),
                 serde_json::to_string(case).unwrap_or_default()
             );
             std::process::exit(2);
